@@ -12,6 +12,54 @@ var c01Cfg = shapeCfg{
 	maxDepth:   3,
 }
 
+// c01PairCase: two scripts in one file (state must not leak from one script's
+// compilation into the next; gotos may cross scripts).
+func c01PairCase(shA, shB []*Sh, name string) *Case {
+	atoms := &AtomTable{Coded: true}
+	b := &shapeBuilder{atoms: atoms}
+	nA := atoms.New(ClsIdent, "script", "names")
+	nB := atoms.New(ClsIdent, "script", "names")
+	both := append(append([]*Sh{}, shA...), shB...)
+	b.collectLabels(both)
+	li := 0
+	bodyA := b.block(shA, &li)
+	bodyB := b.block(shB, &li)
+	prog := &Program{Atoms: atoms, Tops: []interface{}{&Script{Name: nA, Body: bodyA}, &Script{Name: nB, Body: bodyB}}}
+	return &Case{Name: name, Prog: prog, Variants: optVariants, Shape: ShString(shA) + " || " + ShString(shB), NonTrivial: true,
+		Oracle: bisimOracle("bisimulation-two-scripts", func(x *OracleCtx) []*Script { return scriptsOf(prog) }, nil)}
+}
+
+func c01PairShapes(maxNodes int) [][2][]*Sh {
+	partners := [][]*Sh{
+		{{K: "if", Blocks: [][]*Sh{{{K: "cmd"}}}}, {K: "label"}, {K: "cmd"}},
+		{{K: "while", Blocks: [][]*Sh{{{K: "cmd"}, {K: "if", Blocks: [][]*Sh{{{K: "break"}}}}}}}},
+		{{K: "ifelse", Blocks: [][]*Sh{{{K: "end"}}, {{K: "cmd"}}}}, {K: "goto"}},
+	}
+	var res [][2][]*Sh
+	var small [][]*Sh
+	for n := 1; n <= maxNodes; n++ {
+		small = append(small, c01Cfg.enumBlock(n, 1, false, false)...)
+	}
+	for _, a := range small {
+		for _, p := range partners {
+			// goto targets: enumerate over the labels of both scripts
+			for _, ab := range expandGotos(append(cloneSh(a), append([]*Sh{{K: "\x00sep"}}, cloneSh(p)...)...)) {
+				var x, y []*Sh
+				cur := &x
+				for _, s := range ab {
+					if s.K == "\x00sep" {
+						cur = &y
+						continue
+					}
+					*cur = append(*cur, s)
+				}
+				res = append(res, [2][]*Sh{x, y}, [2][]*Sh{y, x})
+			}
+		}
+	}
+	return res
+}
+
 func c01Case(sh []*Sh, name string) *Case {
 	atoms := &AtomTable{Coded: true}
 	b := &shapeBuilder{atoms: atoms}
@@ -239,7 +287,7 @@ func RunC01(env *Env, rep *Report) {
 	rep.Explanation = "Bounded symbolic verification, not a proof. For every statement-tree skeleton within the shape bound, the real ParseProgram and Emit are executed symbolically (all command, flag, label and script names are SMT string variables constrained only to their lexical class; -optimize on and off). The emitted text is parsed into a control-flow graph and compared with the reference semantics of the skeleton by a bisimulation whose every step is an SMT query over an arbitrary game state (flags/vars/trainer flags are uninterpreted functions, chosen afresh after every command), so executions of any length are covered for each skeleton. unsat on all mismatch queries = holds for every name and every state; sat = counterexample, replayed on the natively built code before it is reported."
 	rep.Bounds = map[string]interface{}{"max_nodes": maxNodes, "max_depth": c01Cfg.maxDepth, "enumerated_skeletons": nEnum, "context_family_skeletons": len(shapes) - nEnum, "elif_chain_family": "if with 2..3 elifs, with/without else, every body empty or one command, alone and inside a while",
 		"statement_kinds": append(append([]string{}, c01Cfg.simple...), c01Cfg.constructs...), "conditions": "single flag() leaf", "goto_targets": "every label of the skeleton, or a label not defined in the file", "optimize": "on and off"}
-	rep.Outside = []string{"statement trees with more nodes or deeper nesting than the bound (other than the context family)", "compound conditions (C02) and switch (C03)", "more than one script per file"}
+	rep.Outside = []string{"statement trees with more nodes or deeper nesting than the bound (other than the context family)", "compound conditions (C02) and switch (C03)", "more than two scripts per file"}
 	rep.Assumptions = []string{"assembly semantics of DESIGN.md §4.1: ordinary commands are opaque events that may change any flag/var; goto/goto_if_*/compare/return/end as in the decomp script engine",
 		"atom classes: command names are identifiers other than keywords and control-flow instruction names; label and script names are pairwise distinct; label names do not end in _<digits>",
 		"intrinsics of DESIGN.md §2.5 model the standard library faithfully", "the reference semantics of DESIGN.md §4.1 (continue in do...while returns to the start of the body)"}
@@ -249,6 +297,15 @@ func RunC01(env *Env, rep *Report) {
 	for i, sh := range shapes {
 		cases[i] = c01Case(sh, fmt.Sprintf("c01/%s", ShString(sh)))
 	}
+	pairNodes := 2
+	if env.Tier == "thorough" {
+		pairNodes = 3
+	}
+	pairs := c01PairShapes(pairNodes)
+	for _, pr := range pairs {
+		cases = append(cases, c01PairCase(pr[0], pr[1], fmt.Sprintf("c01/pair/%s || %s", ShString(pr[0]), ShString(pr[1]))))
+	}
+	rep.Bounds["two_script_programs"] = len(pairs)
 	if len(cases) > 0 {
 		src, _ := cases[len(cases)/2].Prog.Render()
 		rep.AddSample(map[string]interface{}{"skeleton": cases[len(cases)/2].Shape, "source_with_holes": src})
